@@ -219,6 +219,9 @@ func c13Server(c *ev.Ctx) {
 								}
 							}
 							lim := minU64(cnt, m-11)
+							if off < uint64(dsz) {
+								entSz = uint64(wire.DirentSize(names[off])) // the entry that would come first
+							}
 							if off < uint64(dsz) && lim >= entSz && len(ents) == 0 {
 								c.Violation("C13:srv:Rreaddir-empty-though-an-entry-fits", map[string]any{"msize": ms, "count": cnt, "off": off, "entry_size": entSz})
 							}
